@@ -179,7 +179,9 @@ def parseCondition (fuel : Nat) : P (Option Expr) := do
 /-- `Parser.parseDimension()`: a regex dimension returns before the trailing whitespace is consumed. -/
 def parseDimension (fuel : Nat) : P Expr := do
   match ← parseRegex with
-  | some re => pure re
+  | some re =>
+    consumeWhitespace
+    pure re
   | none =>
     let e ← parseExpr fuel
     consumeWhitespace
